@@ -42,6 +42,7 @@ func runC03(c *Ctx) {
 	boardCopyRule(c, p, "C03.R7")
 	c03R8(c, p)
 	c03R9(c, p)
+	epNullRule(c, p, "C03.R10")
 }
 
 // boardWrites: Board fields stored by fn and its callees inside package board.
